@@ -15,7 +15,8 @@ Lexemes == { <<112, 114, 105, 110, 116>>, <<120, 49>>, <<52, 50>>, <<48, 120, 49
              <<35, 226, 130, 172, 13>>, <<123>>, <<125>>,
              <<35, 99, 13, 52, 50, 10>>,
              <<34, 97, 92>>,
-             <<240, 159, 152, 128>>, <<34, 240, 159, 152, 128, 34>> }     \* a four-byte character (U+1F600) where a token should start, and inside a string                              \* an unterminated string ending in a backslash: the escape takes the next character, a line end too                  \* a comment ended by a bare CR with a token before the next LF
+             <<240, 159, 152, 128>>, <<34, 240, 159, 152, 128, 34>>,
+             <<100, 101, 102, 32, 98, 123, 102, 61, 49, 125>> }     \* a whole closed block, def b{f=1}: what follows it (a lexical failure, say) must not reach back into it     \* a four-byte character (U+1F600) where a token should start, and inside a string                              \* an unterminated string ending in a backslash: the escape takes the next character, a line end too                  \* a comment ended by a bare CR with a token before the next LF
 RECURSIVE Split(_, _, _)
 Split(bs, cuts, from) ==
   IF cuts = {} THEN << SubSeq(bs, from + 1, Len(bs)) >>
